@@ -101,6 +101,20 @@ def gen_cases(ctx):
         if op == "div" and lo <= 0 <= hi:
             lo, hi = 1, 1 + (hi - lo)
         cases.append(("public-ivlobj", dep, op, pbx.int_box200(rng, rng.choice(signs)), ([lo] * 200, [hi] * 200)))
+    # the same integer step boxes at other magnitudes (powers of two: still exact): products of order 1e-14, 1e-30,
+    # 1e+20 — an absolute tolerance / "snap to zero" anywhere in the pipeline is wrong there
+    for _ in range(ctx.scale(36, 600)):
+        op = rng.choice(["add", "sub", "mul", "mul", "div"])
+        dep = rng.choice(["p", "o", "i"])
+        sx, sy = rng.choice(signs), rng.choice(signs)
+        if op == "div" and sy in ("str", None, "pos0", "neg0"):
+            sy = rng.choice(["pos", "neg"])
+        s1, s2 = (rng.choice([2.0 ** -30, 2.0 ** -24, 2.0 ** -60, 2.0 ** 36]) for _ in range(2))
+        if op in ("add", "sub"):
+            s2 = s1
+        x, y = pbx.int_box200(rng, sx), pbx.int_box200(rng, sy)
+        cases.append(("public-scaled", dep, op, ([v * s1 for v in x[0]], [v * s1 for v in x[1]]),
+                      ([v * s2 for v in y[0]], [v * s2 for v in y[1]])))
     # integer-dtype bounds (Staircase(left=[ints], …), pba.min_max(2, 5)): integer reciprocals / truncation
     for _ in range(ctx.scale(18, 400)):
         op = rng.choice(["div", "div", "mul", "add", "sub"])
@@ -154,6 +168,38 @@ def reuse_stream(ctx):
             return
 
 
+def isum_stream(ctx):
+    """`isum([p1 … pk])` (independent sum of k operands, k = 2…7) is the left fold of the binary independent sum —
+    every operand takes part, whatever k — and its support is the sum of the supports."""
+    import warnings
+    from pyuncertainnumber.pba.operation import isum
+    rng = ctx.rng
+    for it in range(ctx.scale(10, 80)):
+        k = rng.choice([2, 3, 3, 4, 5, 6, 7])
+        boxes = [pbx.int_box200(rng, rng.choice(["pos", "neg", "str", None])) for _ in range(k)]
+        ctx.count(("isum", it, k, tuple(b[0][0] for b in boxes)), True, "public-isum")
+        feat = {"op": "isum", "dep": "i", "sx": "-", "sy": "-", "public": True, "n": 200}
+        case = {"stream": "public-isum", "k": k, "operands": [[b[0][0], b[0][-1], b[1][0], b[1][-1]] for b in boxes]}
+        try:
+            with warnings.catch_warnings():
+                warnings.simplefilter("ignore")
+                ps = [pbx.stair(*b) for b in boxes]
+                got = pbx.canon_pb(isum(ps))
+                ref = ps[0]
+                for p in ps[1:]:
+                    ref = ref.add(p, dependency="i")
+                ref = pbx.canon_pb(ref)
+        except BaseException as e:  # noqa
+            ctx.fail({**feat, "check": "raises", "symptom": "raises:" + core.err_kind(e)}, case, f"isum of {k} p-boxes raised {core.err_kind(e)}")
+            return
+        lo, hi = sum(b[0][0] for b in boxes), sum(b[1][-1] for b in boxes)
+        if got[0] != "ok" or got != ref or got[1][0] != lo or got[2][-1] != hi:
+            ctx.fail({**feat, "check": "isum-fold", "symptom": "random-set-mismatch"},
+                     {**case, "support": [got[1][0], got[2][-1]] if got[0] == "ok" else pbx.js(got), "expected_support": [lo, hi]},
+                     f"isum of {k} p-boxes is not the fold of the binary independent sum (support {got[1][0] if got[0]=='ok' else got}…, expected [{lo}, {hi}])")
+            return
+
+
 def wire(c):
     stream, rule, op, x, y = c
     if stream.startswith("public"):
@@ -179,7 +225,7 @@ def run(ctx: core.Check):
         ctx.bump(f"dep:{rule[0]}")
         ctx.bump("signs:" + pbx.sign_class(*x)[:3] + "x" + pbx.sign_class(*y)[:3])
         public = stream.startswith("public")
-        exact = (not public) or (stream in ("public-int", "public-intdtype", "public-ivlobj") and op != "div")
+        exact = (not public) or (stream in ("public-int", "public-intdtype", "public-ivlobj", "public-scaled") and op != "div")
         impl = impl_public(op, rule, x, y, bare=False, int_dtype=(stream == "public-intdtype"),
                            y_interval=(stream == "public-ivlobj")) if public else impl_raw(rule, op, x, y)
         model = pbx.parse_reply(rep)
@@ -211,4 +257,5 @@ def run(ctx: core.Check):
             ctx.fail({**feat, "check": w["why"], "symptom": "random-set-mismatch"}, {**case, "witness": w},
                      f"{op} under {rule}: result step {w.get('step')} ({w['why']}) is {w.get('reported')}, random-set value {w.get('random_set', w.get('block'))}")
     reuse_stream(ctx)
+    isum_stream(ctx)
     recheck_kept(ctx, "C03")
